@@ -4,6 +4,7 @@ import (
 	"context"
 	"encoding/json"
 	"fmt"
+	lspuri "go.lsp.dev/uri"
 	"os"
 	"path/filepath"
 	"strings"
@@ -89,6 +90,10 @@ func c01Doc(r *RNG) string {
 		return ""
 	case 1:
 		return "2024-01-15 shop\n    expenses:food  10 USD\n    assets:cash\n"
+	case 2, 3:
+		// a payee with a posting template and a fresh header of the same payee to complete
+		tmpl := Pick(r, []string{"    expenses:food  10 USD\n    assets:cash\n", "    expenses:fuel  20 EUR\n    liabilities:card\n", "    expenses:food:groceries  5 CHF\n    assets:bank\n"})
+		return "2024-01-15 shop\n" + tmpl + "\n2024-03-01 shop\n"
 	}
 	n := r.Range(1, 25)
 	var sb strings.Builder
@@ -227,7 +232,11 @@ func batteryAnswers(s *Session, uri protocol.DocumentURI, text string, r *RNG, i
 	out := map[string]string{}
 	ctx := context.Background()
 	id := protocol.TextDocumentIdentifier{URI: uri}
-	norm := func(v any) string { return strings.ReplaceAll(CanonJSON(v), string(uri), "URI") }
+	// the server answers with its own spelling of the document's URI
+	canon := string(lspuri.File(lspuri.URI(uri).Filename()))
+	norm := func(v any) string {
+		return strings.ReplaceAll(strings.ReplaceAll(CanonJSON(v), string(uri), "URI"), canon, "URI")
+	}
 	ds, _ := s.Srv.DocumentSymbol(ctx, &protocol.DocumentSymbolParams{TextDocument: id})
 	out["documentSymbol"] = norm(ds)
 	fr, _ := s.Srv.FoldingRanges(ctx, &protocol.FoldingRangeParams{TextDocumentPositionParams: protocol.TextDocumentPositionParams{TextDocument: id}})
@@ -262,6 +271,18 @@ func batteryAnswers(s *Session, uri protocol.DocumentURI, text string, r *RNG, i
 			pj, _ := json.Marshal(map[string]any{"textDocument": id, "position": pos.Position, "context": map[string]any{"triggerKind": 1}})
 			ic, _ := s.Srv.InlineCompletion(ctx, pj)
 			out["inlineCompletion"+key] = norm(ic)
+		}
+	}
+	if inline {
+		n := 0
+		for l := 0; l < len(starts) && n < 3; l++ {
+			lt := text[starts[l]:ends[l]]
+			if len(lt) > 0 && lt[0] >= '0' && lt[0] <= '9' {
+				n++
+				pj, _ := json.Marshal(map[string]any{"textDocument": id, "position": protocol.Position{Line: uint32(l + 1), Character: 0}, "context": map[string]any{"triggerKind": 1}})
+				ic, _ := s.Srv.InlineCompletion(ctx, pj)
+				out[fmt.Sprintf("inlineCompletion@below-header-%d", l)] = norm(ic)
+			}
 		}
 	}
 	return out
@@ -349,7 +370,9 @@ func c01History(c *Ctx, st *c01State, idx int64) {
 	open := make([]bool, ndocs)
 	edited := make([]bool, ndocs) // unsaved edits since open/save
 	for i := range uris {
-		uris[i] = s.URI(fmt.Sprintf("h%d_%d.journal", idx, i))
+		// the same file can be spelled in several ways; the client's spelling is the document's name
+		name := fmt.Sprintf("h%d_%d%s.journal", idx, i, Pick(r, []string{"", "", "", "%2Bx", "%2bx", "%3Dy", "%41", "%c3%a9", ",z"}))
+		uris[i] = s.URI(name)
 	}
 	nsteps := r.Range(1, 12)
 	var steps []c01Step
